@@ -52,7 +52,12 @@ func InitGlobals() {
 		functions.GetTransactionParameters = transaction.GetTransactionparameters
 		config.DefaultParams = *config.GetDefaultParams()
 		logDir, _ := os.MkdirTemp("", "verif-log-")
-		log.NewDefault(logDir, 5, 0, 0) // level 5 = fatal only
+		level := uint8(5) // fatal only
+		if v := os.Getenv("VERIF_LOGLEVEL"); v != "" {
+			level = uint8(v[0] - '0')
+			fmt.Fprintln(os.Stderr, "node log in", logDir)
+		}
+		log.NewDefault(logDir, level, 0, 0)
 		LogDir = logDir
 	})
 }
@@ -61,7 +66,7 @@ func InitGlobals() {
 var LogDir string
 
 func CleanupGlobals() {
-	if LogDir != "" {
+	if LogDir != "" && os.Getenv("VERIF_LOGLEVEL") == "" {
 		os.RemoveAll(LogDir)
 	}
 }
